@@ -16,7 +16,7 @@ import (
 	"github.com/cloudflare/circl/internal/verifref/wcurve"
 )
 
-func c09Matrix(r *verifmc.Run, name string, c *wcurve.Curve, dec func(in []byte) (out []byte, ok bool, note string)) {
+func c09Matrix(r *verifmc.Run, name string, c *wcurve.Curve, dec func(first, in []byte) (out []byte, ok bool, note string)) {
 	esz := c09ref.BLSLen(c, false)
 	entries := c09ref.BLSCases(c, false, c09ref.BLSOptions{FlipBases: r.Pick(1, 4)})
 	good := c09ref.BLSEncode(c, c.G, false)
@@ -27,13 +27,23 @@ func c09Matrix(r *verifmc.Run, name string, c *wcurve.Curve, dec func(in []byte)
 		binary.LittleEndian.PutUint16(h[2:], uint16(cols))
 		return h
 	}
-	for _, e := range entries {
+	ebases := c09ref.Bases(entries)
+	wrap := func(rows, cols int, e []byte) []byte {
+		if e == nil {
+			return nil
+		}
+		if rows*cols == 1 {
+			return append(hdr(1, 1), e...)
+		}
+		return append(append(hdr(rows, cols), good...), e...)
+	}
+	for i, e := range entries {
 		// 1x1 with the entry; 1x2 and 2x1 with a good first entry and the case as last entry
-		cases = append(cases, verifmc.DecCase{Name: "1x1/" + e.Name, Class: e.Class, Data: append(hdr(1, 1), e.Data...)})
+		cases = append(cases, verifmc.DecCase{Name: "1x1/" + e.Name, Class: e.Class, Data: wrap(1, 1, e.Data), Base: wrap(1, 1, ebases[i])})
 		if e.Class != "flip" {
 			cases = append(cases,
-				verifmc.DecCase{Name: "1x2/" + e.Name, Class: e.Class, Data: append(append(hdr(1, 2), good...), e.Data...)},
-				verifmc.DecCase{Name: "2x1/" + e.Name, Class: e.Class, Data: append(append(hdr(2, 1), good...), e.Data...)})
+				verifmc.DecCase{Name: "1x2/" + e.Name, Class: e.Class, Data: wrap(1, 2, e.Data), Base: wrap(1, 2, ebases[i])},
+				verifmc.DecCase{Name: "2x1/" + e.Name, Class: e.Class, Data: wrap(2, 1, e.Data), Base: wrap(2, 1, ebases[i])})
 		}
 	}
 	r.CheckDecoder(verifmc.DecSpec{Entry: "tkn." + name + ".unmarshalBinary", Cases: cases,
@@ -47,8 +57,15 @@ func c09Matrix(r *verifmc.Run, name string, c *wcurve.Curve, dec func(in []byte)
 			}
 			return verifmc.DecOracle{Member: true}
 		},
+		Seq: func(first, second []byte) verifmc.DecResult {
+			out, ok, note := dec(first, second)
+			if !ok {
+				return verifmc.DecResult{}
+			}
+			return verifmc.DecResult{Accepted: true, Reenc: out, Note: note}
+		},
 		Lib: func(in []byte) verifmc.DecResult {
-			out, ok, note := dec(in)
+			out, ok, note := dec(nil, in)
 			if !ok {
 				return verifmc.DecResult{}
 			}
@@ -60,9 +77,12 @@ func TestVerifC09_tkn_matrix(t *testing.T) {
 	r := verifmc.Start(t, "C09", "tkn_matrix")
 	defer r.Finish()
 	r.Rule("matrices 1x1, 1x2, 2x1 whose last entry runs over the uncompressed G1 / G2 alphabet of units bls_g1 / bls_g2 (bit flips of 1 quick / 4 thorough bases, 1x1 only) " +
-		"and whose other entry is the generator; distinct = distinct (matrix type, input bytes)")
-	c09Matrix(r, "matrixG1", wcurve.BLS12381G1(), func(in []byte) ([]byte, bool, string) {
+		"and whose other entry is the generator; every case also decoded into a matrix object that already holds the nearest valid matrix, and before it; distinct = distinct (matrix type, input bytes)")
+	c09Matrix(r, "matrixG1", wcurve.BLS12381G1(), func(first, in []byte) ([]byte, bool, string) {
 		m := new(matrixG1)
+		if first != nil {
+			_ = m.unmarshalBinary(first)
+		}
 		if err := m.unmarshalBinary(in); err != nil {
 			return nil, false, ""
 		}
@@ -72,8 +92,11 @@ func TestVerifC09_tkn_matrix(t *testing.T) {
 		}
 		return out, true, ""
 	})
-	c09Matrix(r, "matrixG2", wcurve.BLS12381G2(), func(in []byte) ([]byte, bool, string) {
+	c09Matrix(r, "matrixG2", wcurve.BLS12381G2(), func(first, in []byte) ([]byte, bool, string) {
 		m := new(matrixG2)
+		if first != nil {
+			_ = m.unmarshalBinary(first)
+		}
 		if err := m.unmarshalBinary(in); err != nil {
 			return nil, false, ""
 		}
@@ -87,4 +110,5 @@ func TestVerifC09_tkn_matrix(t *testing.T) {
 	r.RequireCounter("in:flip", 768+1536-8)
 	r.RequireCounter("in:alias", 30)
 	r.RequireCounter("accepted", 60)
+	r.RequireCounter("reused_receiver_cases", 2000)
 }
